@@ -311,6 +311,7 @@ def _anc(n):
 
 W = "widget/_urwid.py"
 MUTANTS = [
+    M("handover-none-when-queries-off", U, "_process_start_wrapper", "        else:\n            self._tty_lock = _tty_lock\n", "        else:\n            self._tty_lock = _tty_lock if _queries_enabled else None\n", {"L4"}),
     M("single-item-with", U, "lock_tty", "with _tty_lock, _tty_lock:", "with _tty_lock:", {"L1"}),
     M("captured-lock", U, "lock_tty", "    @wraps(func)\n    def lock_tty_wrapper", "    _tty_lock = globals()['_tty_lock']\n\n    @wraps(func)\n    def lock_tty_wrapper", {"L1"}),
     M("undecorate-write-tty", U, "write_tty", "@unix_tty_only\n@lock_tty\n", "@unix_tty_only\n", {"L2"}),
